@@ -210,6 +210,9 @@ func H_C09(cfg int) {
 		cfg -= 100
 		acrhCap, items, ahCap = 13, 3, 6
 	}
+	// cfg + 4: the request's own Host is the host the Origin names (a page calling its own server with an Origin header)
+	hostSame := cfg >= 4
+	cfg = cfg % 4
 	k := vCorsCfg{cookies: nondetBool("cookies"), maxAge: 5}
 	if cfg%2 == 0 {
 		k.methods = []string{"GET", "PUT"}
@@ -228,7 +231,7 @@ func H_C09(cfg int) {
 	path := []string{"/t/a", "/t/b"}[urlSel]
 	hdr := map[string]string{"Origin": "http://o", HEADER_AccessControlRequestMethod: acrm, HEADER_AccessControlRequestHeaders: acrh}
 	// a first preflight to the other URL must not influence this one ("must not stick")
-	if nondetBool("warmup") {
+	if !hostSame && nondetBool("warmup") {
 		recw := vNewRec()
 		h.dispatch(c, recw, vHdrReq("OPTIONS", []string{"/t/b", "/t/a"}[urlSel], map[string]string{"Origin": "http://o", HEADER_AccessControlRequestMethod: "GET"}))
 		h.invoked, h.events = nil, nil
@@ -236,9 +239,14 @@ func H_C09(cfg int) {
 	}
 	rec := vNewRec()
 	hreq := vHdrReq(method, path, hdr)
+	// the request's own host may be the origin's host (a page calling its own server with an Origin header), in any case
+	if hostSame {
+		hreq.Host = []string{"o", "O"}[nondetChoice("host", 2)]
+		verifCover("origin-names-the-request-host")
+	}
 	// a list-valued header may arrive on more than one line: a second Access-Control-Request-Headers line with one name
 	acrh2 := ""
-	if len(acrh) > 0 && nondetBool("second-line") {
+	if len(acrh) > 0 && !hostSame && nondetBool("second-line") {
 		acrh2 = nondetString("acrh2", ahCap)
 		verifAssume(vAnd(len(acrh2) > 0, !strings.Contains(acrh2, ",")))
 		hreq.Header.Add(HEADER_AccessControlRequestHeaders, acrh2)
